@@ -490,9 +490,19 @@ func (d *diskFlow) exit(x *Exec, ret *ast.ReturnStmt, s St) {
 						empty = true
 					}
 				}
+				if empty {
+					// the shortcut is exactly (kind == CAS, size == 0, hash == emptySha256): the
+					// signature of Put is pinned by the disk.Cache interface (ctx, kind, hash, size, r)
+					top := fn
+					for top.Outer != nil {
+						top = top.Outer
+					}
+					isCAS, k1 := relLookup(s, "#1", "==", paramTerm(top, 1))
+					empty = k1 && isCAS && relIs(s, "#0", "==", paramTerm(top, 3), true)
+				}
 				d.note(f == "committed" || empty, "R01a", fn.Name+":"+key+":acked", pos,
 					"a nil (success) return of Put is reached only after commit indexed the verified file (or on the empty-blob shortcut)",
-					"Put can return success on a path where nothing was verified and indexed (file="+f+", wrote="+s.Get("wrote")+")", x.Trace())
+					"Put can return success on a path where nothing was verified and indexed, and which is not the (CAS, size 0, empty SHA-256) shortcut (file="+f+", wrote="+s.Get("wrote")+")", x.Trace())
 			} else {
 				d.note(true, "R01a", fn.Name+":"+key+":acked", pos, "error return", "", nil)
 			}
